@@ -50,17 +50,23 @@ def limited(fn, *a, **kw):
         raise GiveUp()
     if threading.current_thread() is not threading.main_thread():
         return fn(*a, **kw)
+    # CPU time of this process (a machine busy with the other checks must not look like a request that does not return),
+    # with a wall-clock allowance of six times that as the backstop for a request that blocks without computing
     old = signal.signal(signal.SIGALRM, _on_alarm)
-    signal.setitimer(signal.ITIMER_REAL, LIMIT)
+    oldv = signal.signal(signal.SIGVTALRM, _on_alarm)
+    signal.setitimer(signal.ITIMER_REAL, 6 * LIMIT)
+    signal.setitimer(signal.ITIMER_VIRTUAL, LIMIT)
     try:
         try:
             return fn(*a, **kw)
         finally:
+            signal.setitimer(signal.ITIMER_VIRTUAL, 0)
             signal.setitimer(signal.ITIMER_REAL, 0)
+            signal.signal(signal.SIGVTALRM, oldv)
             signal.signal(signal.SIGALRM, old)
     except _Alarm:
         _hangs[0] += 1
-        raise DidNotReturn('no result within %g s (time limit)' % LIMIT) from None
+        raise DidNotReturn('no result within %g s of CPU time / %g s (time limit)' % (LIMIT, 6 * LIMIT)) from None
 
 
 # --------------------------------------------------------------------------- codec
@@ -1245,7 +1251,9 @@ def size_tree_part(res, r, tier):
     plans.append(('chain', 2 ** 19 + 7, False))
     plans.append(('many', 2 ** 18 + 2 ** 17, False))        # thousands of expanded nodes with ordinary ids
     if tier != 'quick':
-        plans.append(('many', 2 ** 21, False))
+        # (the tag's work grows with the square of the number of expanded folders - 8000 of them take about 3 s -, so
+        # this is the largest state the time limit leaves room for; its speed is no part of the property)
+        plans.append(('many', 2 ** 20, False))
     for shape_kind, total, escaped in plans:
         if shape_kind == 'flat':
             m = r.randint(2, 12)
